@@ -93,7 +93,7 @@ func parseRequest(l string) (request, error) {
 }
 
 func (r request) has(c byte) bool { return strings.IndexByte(r.Flags, c) >= 0 }
-func (r request) cli() bool      { return strings.HasPrefix(r.Kind, "cli") }
+func (r request) cli() bool       { return strings.HasPrefix(r.Kind, "cli") }
 
 // ---------------------------------------------------------------------------------------------
 // child: runs the real library code
@@ -238,7 +238,13 @@ func runLib(c *core.Ctx, r request) (res result) {
 			s  string
 		}
 		var recs []rec
+		// the consumer keeps what it receives and reads it when the channel is closed: a record whose
+		// slices a worker goes on writing after the send (buffers reused from tree to tree) shows
+		var kept []tree.WeightedBipartitionStats
 		for st := range stats {
+			kept = append(kept, st)
+		}
+		for _, st := range kept {
 			recs = append(recs, rec{st.Id, fmt.Sprintf("%d:%s:%s:%s:%v:%s;", st.Id, sortedRats(st.Tree1), sortedRats(st.Tree2), sortedRats(st.Common), st.Sametree, errClass(st.Err))})
 		}
 		sort.SliceStable(recs, func(i, j int) bool { return recs[i].id < recs[j].id })
@@ -388,8 +394,10 @@ type config struct {
 	childBin string // binary re-executed for the library calls (default: this one)
 	gotree   string // gotree binary of the command-line kinds (default: c.Gotree)
 	nchild   int
+	ncli     int
 	search   bool // short race search after a broken table
 	patient  bool // confirming a timeout
+	nshrunk  int
 	hangs    map[string]int
 }
 
@@ -471,6 +479,10 @@ func runBatch(c *core.Ctx, cfg *config, reqs []request) []result {
 	return res
 }
 
+func yieldEnv(c *core.Ctx, k int) string {
+	return fmt.Sprintf("GOTREE_VERIF_YIELD=%d:%d", c.Seed+int64(k), []int{0, 50, 300, 800}[k%4])
+}
+
 // runChild starts one child on reqs and returns how many requests were settled (≥ 1).
 func runChild(c *core.Ctx, cfg *config, reqs []request, res []result) int {
 	var content strings.Builder
@@ -490,6 +502,9 @@ func runChild(c *core.Ctx, cfg *config, reqs []request, res []result) int {
 	if mp := []string{"", "2", "4", "16", "1"}[cfg.nchild%5]; mp != "" {
 		cmd.Env = append(cmd.Env, "GOMAXPROCS="+mp)
 	}
+	// the verif yield hook of /repo (tree/yield_verif.go, if present): successive children run with plain
+	// Gosched at every scheduling point, then with 5%, 30%, 80% of the points sleeping a few microseconds
+	cmd.Env = append(cmd.Env, yieldEnv(c, cfg.nchild))
 	cfg.nchild++
 	stdout, err := cmd.StdoutPipe()
 	if err != nil {
@@ -615,10 +630,24 @@ func runCLI(c *core.Ctx, cfg *config, r request) result {
 	defer os.Remove(itf)
 	defer os.Remove(logf)
 	var args []string
-	th := strconv.Itoa(r.Threads)
+	// the thread option in its forms (cmd/root.go: persistent flag -t/--threads, default 1):
+	// L = `--threads N`, E = `--threads=N`, O = omitted (one thread), P = given before the sub-command
+	th := []string{"-t", strconv.Itoa(r.Threads)}
+	switch {
+	case r.has('L'):
+		th = []string{"--threads", strconv.Itoa(r.Threads)}
+	case r.has('E'):
+		th = []string{"--threads=" + strconv.Itoa(r.Threads)}
+	case r.has('O') && r.Threads == 1:
+		th = nil
+	}
+	fbpName, tbeName := "fbp", "tbe"
+	if r.has('A') { // the alias commands of classical.go / booster.go
+		fbpName, tbeName = "classical", "booster"
+	}
 	switch r.Kind {
 	case "clicompare", "cliweighted":
-		args = []string{"compare", "trees", "-i", reff, "-c", itf, "-t", th}
+		args = []string{"compare", "trees", "-i", reff, "-c", itf}
 		if r.has('t') {
 			args = append(args, "--tips")
 		}
@@ -631,14 +660,19 @@ func runCLI(c *core.Ctx, cfg *config, r request) result {
 			args = append(args, "--rf")
 		}
 	case "clifbp":
-		args = []string{"compute", "support", "fbp", "-i", reff, "-b", itf, "-t", th, "-l", logf, "--silent"}
+		args = []string{"compute", "support", fbpName, "-i", reff, "-b", itf, "-l", logf, "--silent"}
 	case "clitbe":
-		args = []string{"compute", "support", "tbe", "-i", reff, "-b", itf, "-t", th, "-l", logf, "--silent"}
+		args = []string{"compute", "support", tbeName, "-i", reff, "-b", itf, "-l", logf, "--silent"}
 		if r.has('a') {
 			args = append(args, "--moved-taxa")
 		}
 	default:
 		return result{Outcome: "crash:" + core.Escape("harness: unknown kind "+r.Kind), Took: -1}
+	}
+	if r.has('P') {
+		args = append(append([]string{}, th...), args...)
+	} else {
+		args = append(args, th...)
 	}
 	if cfg.gotree != "" {
 		saved := c.Gotree
@@ -648,6 +682,8 @@ func runCLI(c *core.Ctx, cfg *config, r request) result {
 	if cfg.dead(r.Kind) {
 		return result{Outcome: "skipped", Took: -1}
 	}
+	cfg.ncli++
+	os.Setenv("GOTREE_VERIF_YIELD", strings.TrimPrefix(yieldEnv(c, cfg.ncli), "GOTREE_VERIF_YIELD="))
 	x := c.RunCLI("", cfg.watchdog(), args...)
 	if x.Timeout {
 		x = c.RunCLI("", 4*cfg.watchdog(), args...)
@@ -702,6 +738,18 @@ func runCLI(c *core.Ctx, cfg *config, r request) result {
 			res.Records = o.String()
 		} else {
 			// the tree with supports: re-read and reported like the library runs (supports in Edges() order)
+			// the log echoes the thread count the command was given (classical.go:93, booster.go:114)
+			if lb, err := os.ReadFile(logf); err == nil {
+				for _, l := range strings.Split(string(lb), "\n") {
+					if strings.HasPrefix(l, "CPUs") {
+						if k := strings.LastIndex(l, ":"); k >= 0 {
+							if v, err := strconv.Atoi(strings.TrimSpace(l[k+1:])); err == nil {
+								res.Took = v
+							}
+						}
+					}
+				}
+			}
 			res.Records = "unparsed:" + core.Escape(strings.Join(ls, "\n"))
 			if len(ls) == 1 {
 				if t, err := newick.NewParser(strings.NewReader(ls[0])).Parse(); err == nil {
@@ -767,6 +815,14 @@ func runAndEmit(c *core.Ctx, cfg *config, reqs []request) {
 		if x.Outcome == "skipped" || ref.Outcome == "skipped" {
 			continue
 		}
+		// a run that hung, crashed or panicked is shrunk (fewer trees, fewer threads) and the small
+		// failing request is emitted first, so that the replay file holds a minimal input
+		if hardFailure(x.Outcome) && cfg.nshrunk < 3 && !cfg.patient {
+			cfg.nshrunk++
+			if small, sx, sref, ok := shrink(c, cfg, r); ok {
+				c.Emit(small.op(), append(small.fields(), sx.Outcome, sx.Records, sref.Outcome, sref.Records, sx.Race, strconv.Itoa(sx.Took))...)
+			}
+		}
 		c.Emit(r.op(), append(f, x.Outcome, x.Records, ref.Outcome, ref.Records, x.Race, strconv.Itoa(x.Took))...)
 	}
 }
@@ -775,14 +831,17 @@ func runAndEmit(c *core.Ctx, cfg *config, reqs []request) {
 // test, for replaying a case whose recorded failure is a race report.  Scratch binaries in c.Tmp.
 func buildRace(c *core.Ctx, cfg *config, needCLI bool) {
 	buildDir := filepath.Dir(c.Tmp)
-	mod := filepath.Join(buildDir, "gomod-C11", "go.mod")
+	// this binary is `vh` (shared, all integrated properties) or `vh-C11` (development), maybe `…-race`
+	name := strings.TrimSuffix(filepath.Base(os.Args[0]), "-race")
+	mod := filepath.Join(buildDir, "gomod"+strings.TrimPrefix(name, "vh"), "go.mod")
 	harness := filepath.Join(filepath.Dir(buildDir), "harness")
 	if _, err := os.Stat(mod); err != nil {
+		fmt.Fprintf(os.Stderr, "c11: no %s: no race build\n", mod)
 		return
 	}
 	env := append(os.Environ(), "CGO_ENABLED=1")
 	vh := filepath.Join(c.Tmp, "vh-race-replay")
-	cmd := exec.Command("go", "build", "-race", "-tags", "verif", "-modfile="+mod, "-o", vh, "./cmd/vh-C11")
+	cmd := exec.Command("go", "build", "-race", "-tags", "verif", "-modfile="+mod, "-o", vh, "./cmd/"+name)
 	cmd.Dir = harness
 	cmd.Env = env
 	if out, err := cmd.CombinedOutput(); err != nil {
@@ -802,6 +861,57 @@ func buildRace(c *core.Ctx, cfg *config, needCLI bool) {
 		}
 		cfg.gotree = gt
 	}
+}
+
+func hardFailure(outcome string) bool {
+	return outcome == "timeout" || strings.HasPrefix(outcome, "crash:") || strings.HasPrefix(outcome, "panic:")
+}
+
+func runOne(c *core.Ctx, cfg *config, r request) result {
+	if r.cli() {
+		return runCLI(c, cfg, r)
+	}
+	return runBatch(c, cfg, []request{r})[0]
+}
+
+// shrink: greedy removal of items and reduction of the thread count while the run still fails hard
+// (at most 40 executions).  Returns the shrunk request, its result and the result of its one-thread run.
+func shrink(c *core.Ctx, cfg *config, r request) (request, result, result, bool) {
+	budget := 40
+	fails := func(q request) (result, bool) {
+		if budget <= 0 {
+			return result{}, false
+		}
+		budget--
+		x := runOne(c, cfg, q)
+		return x, hardFailure(x.Outcome)
+	}
+	cur := r
+	var curRes result
+	changed := false
+	for _, th := range []int{1, 2} {
+		if th < cur.Threads {
+			q := cur
+			q.Threads = th
+			if x, bad := fails(q); bad {
+				cur, curRes, changed = q, x, true
+				break
+			}
+		}
+	}
+	for i := len(cur.Items) - 1; i >= 0 && budget > 0; i-- {
+		q := cur
+		q.Items = append(append([]string{}, cur.Items[:i]...), cur.Items[i+1:]...)
+		if x, bad := fails(q); bad {
+			cur, curRes, changed = q, x, true
+		}
+	}
+	if !changed {
+		return r, result{}, result{}, false
+	}
+	r1 := cur
+	r1.Threads = 1
+	return cur, curRes, runOne(c, cfg, r1), true
 }
 
 func replay(c *core.Ctx, cfg *config, lines []string) {
@@ -869,7 +979,24 @@ func treeOpts(g *core.G, kind string, big bool) core.TreeOpts {
 	if g.Chance(0.15) || (big && g.Chance(0.5)) {
 		o.MinTips, o.MaxTips = 10, 24
 	}
+	// degenerate shapes and values: single-child inner nodes, absent lengths
+	if g.Chance(0.12) {
+		o.Singles = 0.2
+	}
+	if g.Chance(0.1) {
+		o.Lengths = 2
+	}
 	return o
+}
+
+// rootTip turns a tree with n tips into one whose ROOT is a tip (a root with a single neighbour)
+// named like the (n+1)-th tip.
+func rootTip(g *core.G, n *core.N, o *core.TreeOpts) *core.N {
+	if n.E == nil {
+		n.E = core.NewE()
+		n.E.Len = g.Length(o)
+	}
+	return &core.N{Name: fmt.Sprintf("%s%d", o.TipPrefix, len(n.TipNames())), Kids: []*core.N{n}}
 }
 
 // tableCase re-extracts the goroutine table from the repository under test and reports the rows that
@@ -909,7 +1036,31 @@ func tableCase(c *core.Ctx) (nleaks, nunsync int) {
 			}
 		}
 	}
+	// read/write races visible in the table (same rule as `racePairs` of Model/C11.lean)
+	compatible := func(a, b string) bool { return a == b && (a == "mutex" || a == "atomic" || a == "itemIndexed") }
+	for _, g1 := range gos {
+		for _, g2 := range gos {
+			if g1.File != g2.File || g1.Fn != g2.Fn || (g1.Line == g2.Line && !g1.Multi) {
+				continue
+			}
+			for _, w := range g1.Accesses {
+				for _, r := range g2.Accesses {
+					if w.Write && w.Var == r.Var && (w.Form == "whole" || w.Form == r.Form) && !compatible(w.Sync, r.Sync) {
+						unsync = append(unsync, fmt.Sprintf("%s %s: %s written at line %d (%s) and accessed at line %d (%s) by concurrent goroutines", g1.File, g1.Fn, w.Var, w.Line, w.Sync, r.Line, r.Sync))
+					}
+				}
+			}
+		}
+	}
 	for _, g := range hmMethods {
+		if strings.HasPrefix(g.Fn, "Supporter.") {
+			for _, a := range g.Accesses {
+				if a.Form != "whole" && a.Sync != "mutex" {
+					unsync = append(unsync, fmt.Sprintf("%s:%d %s: access to %s (%s) line %d without the lock", g.File, g.Line, g.Fn, a.Var, a.Form, a.Line))
+				}
+			}
+			continue
+		}
 		for _, w := range g.Writes {
 			if w.Sync != "mutex" {
 				unsync = append(unsync, fmt.Sprintf("%s:%d %s: write to %s (%s) line %d without the write lock", g.File, g.Line, g.Fn, w.Var, w.How, w.Line))
@@ -941,9 +1092,9 @@ func generate(c *core.Ctx, cfg *config) {
 			}
 		}
 	}
-	ncoll := c.Scale(56, 400)
+	ncoll := c.Scale(48, 300)
 	if cfg.race {
-		ncoll = 80
+		ncoll = 50
 	}
 	if cfg.search {
 		ncoll = 24
@@ -973,6 +1124,9 @@ func generate(c *core.Ctx, cfg *config) {
 		cliToo := c.Gotree != "" && i%3 == 2 && !cfg.search
 		o := treeOpts(g, kind, cfg.race)
 		refN, _ := g.Tree(o)
+		if (kind == "compare" || kind == "weighted") && g.Chance(0.08) {
+			refN = rootTip(g, refN, &o) // the root of the reference is a tip
+		}
 		core.NumberEdges(refN)
 		ntips := len(refN.TipNames())
 		n := g.Intn(7)
@@ -1019,8 +1173,12 @@ func generate(c *core.Ctx, cfg *config) {
 				reqs = append(reqs, request{Kind: kind, Threads: th, Flags: flags, Ref: refN.Dump(), Items: its})
 			}
 			if cliToo {
-				for _, th := range []int{1, 4, 16} {
-					reqs = append(reqs, request{Kind: "cli" + kind, Threads: th, Flags: strings.ReplaceAll(flags, "c", "") + cliFlags, Ref: refN.Dump(), Items: its})
+				for _, th := range []int{1, 4, 16, 64} {
+					v := []string{"", "L", "E", "P", "LP", "A", "AE"}[g.Intn(7)]
+					if th == 1 && g.Chance(0.4) {
+						v = "O" // no thread option at all: one thread
+					}
+					reqs = append(reqs, request{Kind: "cli" + kind, Threads: th, Flags: strings.ReplaceAll(flags, "c", "") + cliFlags + v, Ref: refN.Dump(), Items: its})
 				}
 			}
 		}
